@@ -36,6 +36,13 @@ def keysOf (s : State) : List (Nat × Bytes) := s.dbs.flatMap fun (d, x) => x.st
 def sameData (a c : State) : Bool :=
   (keysOf a ++ keysOf c).all fun (d, k) => a.lookup d k == c.lookup d k
 
+/-- unchanged, except that keys whose deadline had already passed may have been collected (lazy expiry is not eviction) -/
+def sameUpToExpiry (now : Int) (a c : State) : Bool :=
+  (keysOf a ++ keysOf c).all fun (d, k) => a.lookup d k == c.lookup d k ||
+    (match a.lookup d k with
+     | some e => e.expired now && (c.lookup d k).isNone
+     | none => false)
+
 def isVolatilePol (p : Policy) : Bool := p == .volatileLfu || p == .volatileLru || p == .volatileRandom
 
 def lfuCount (es : EState) (d : Nat) (k : Bytes) : Option Nat :=
@@ -83,10 +90,10 @@ def verdict (c : Ctx) (cmd : List Bytes) (pre : EState) (base : Option (State ×
       let full := decide (pre.s.mem ≥ limit)
       let isWrite := (keysOf sb).any fun (d, k) => (sb.lookup d k).map (·.val) != (pre.s.lookup d k).map (·.val)
       if full && isWrite then
-        if !isErr then "rej:admitted" else if !sameData pre.s post.s then "rej:post" else "adm"
+        if !isErr then "rej:admitted" else if !sameUpToExpiry c.now pre.s post.s then "rej:post" else "adm"
       else if full && isErr then
         -- a command that would store the value already there may be refused as well
-        if !sameData pre.s post.s then "rej:post" else "adm"
+        if !sameUpToExpiry c.now pre.s post.s then "rej:post" else "adm"
       else
         if isErr && baseOk then "rej:refused" else if !sameData sb post.s then "rej:post" else "adm"
     else
